@@ -580,6 +580,11 @@ class XPathToken(Token[ta.XPathTokenType]):
                 case AbstractQName():
                     if not isinstance(op2, (AbstractQName, UntypedAtomic)):
                         raise TypeError(msg.format(type(op1), type(op2)))
+                case UntypedAtomic():
+                    if isinstance(op2, UntypedAtomic):
+                        # both untyped: compared as xs:string values
+                        yield op1.value, op2.value
+                        continue
 
             yield op1, op2
 
